@@ -192,8 +192,7 @@ impl ServiceHarness {
 
     /// Number of events (filler not counted) waiting in the inbox of service `q`.
     pub fn inbox_len(&self, q: usize) -> usize {
-        let tx = &self.spare.protocols.get(&self.names[q]).expect("protocol").tx;
-        tx.max_capacity() - tx.capacity() - self.filler[q]
+        self.services[q].verif_inbox_len() - self.filler[q]
     }
 
     /// Filler events sitting in the inbox of service `q`.
